@@ -4,3 +4,8 @@ def chooseSumX (l : List Rat) : Rat := l.foldr (· + ·) 0
 def chooseWeightsX (ws : List Rat) : List Rat :=
   let ws1 := if (decide (ws.length > 0) && (ws.all (fun x => x == ws.headD 0))) then ws.map (· + (1 : Rat)) else ws
   ws1.map (· / chooseSumX ws1)
+
+/-- `get_compatible_bond_descriptor_ids(bond_descriptors, bond)` (core.py): the for loop over `enumerate(bond_descriptors)` appending the index
+where the condition holds, as a left fold with append -/
+def compatIdsX (bds : List Desc) (b : Option Desc) : List Nat :=
+  bds.zipIdx.foldl (fun acc (p : Desc × Nat) => if (b.isNone || (match b with | some bond => isCompatible bond p.1 | none => false)) then acc ++ [p.2] else acc) []
